@@ -22,7 +22,7 @@ from common import fl, fl_list
 import p_c17
 
 GEN_PREFIXES = ["verif/interval.py", "verif/util.py", "verif/metric.py"]
-EXTRA_TARGETS = ["Model/Diagrams.vo", "Gen/Gen_interval.vo", "Gen/Gen_contingency.vo", "Gen/Gen_prob.vo", "Model/Brier.vo", "Model/Render.vo"]
+EXTRA_TARGETS = ["Model/Rank.vo", "Model/Diagrams.vo", "Gen/Gen_interval.vo", "Gen/Gen_contingency.vo", "Gen/Gen_prob.vo", "Model/Brier.vo", "Model/Render.vo"]
 ASSUMPTIONS = ["the arrays delivered by verif.data.Data.get_scores are taken from the real object (their correctness is C01-C15)",
                "values are multiples of 1/4 (1/16 for PIT, 1/8 for probabilities) so sums are exact in binary floating point",
                "not modelled: droc, murphy, economicvalue, bsdecomp, igncontrib, fss, autocorr/autocov, "
@@ -97,6 +97,7 @@ def _explore(out, tier, seed, facts, replay, tmp):
     import verif.input
     import verif.field
     import verif.axis
+    import verif.metric
     rng = random.Random(seed * 2713 + 16)
     rounds = 3 if tier == "quick" else 25
     runner = p_c17.Runner(tmp)
@@ -684,6 +685,7 @@ def _explore(out, tier, seed, facts, replay, tmp):
                                 ls[1 + k * ntimes + d].get_ydata(), rep)
         # ---- rank view (-type rank): for every rank position the stacked shares of the inputs (and of "none") add up to 1,
         #      the shares being taken over the slices where EVERY input has a score
+        rank_ties = []
         for rr in range(3 if tier == "quick" else 12):
             Fr = rng.choice([2, 3, 3])
             nl_r = rng.randint(4, 6)
@@ -720,10 +722,48 @@ def _explore(out, tier, seed, facts, replay, tmp):
                 if hasattr(b_, "get_height") and b_.get_width() > 0:
                     cols_r.setdefault(round(b_.get_x(), 6), 0.0)
                     cols_r[round(b_.get_x(), 6)] += b_.get_height() if not np.isnan(b_.get_height()) else 0.0
+            # tie of Model/Rank.v: the status of every slice from the scores themselves (full precision, through the metric API),
+            # the bar heights from the model's counts
+            try:
+                with common.quiet():
+                    data_r = verif.data.Data([verif.input.get_input(f_) for f_ in files_r])
+                    m_r = verif.metric.get(mname_r)
+                    y_r = np.array([m_r.compute(data_r, k_, verif.axis.Leadtime(), None) for k_ in range(Fr)], float).T
+                tol_r = np.nanstd(y_r) / 50
+                rows_r = []
+                for row in y_r:
+                    if np.any(np.isnan(row)):
+                        rows_r.append("Invalid")
+                    elif abs(row[0] - row[1]) < tol_r:
+                        rows_r.append("Tie")
+                    else:
+                        order_ = [int(q_) for q_ in np.argsort(row)]
+                        if m_r.orientation == 1:
+                            order_ = order_[::-1]
+                        rows_r.append("(Ranked [%s]%%nat)" % "; ".join(str(q_) for q_ in order_))
+                expr_r = ("(let rows := [%s] in (flat_map (fun i => map (fun j => DataQ.f_of_nat (rank_count %d i j rows)) (seq 0 %d)) (seq 0 %d) ++ "
+                          "map (fun j => DataQ.f_of_nat (tie_count rows)) (seq 0 %d) ++ [DataQ.f_of_nat (valid_count rows)])%%list)" % ("; ".join(rows_r), Fr, Fr, Fr, Fr))
+                bars_r = [b_.get_height() for b_ in fig_r.axes[0].patches if hasattr(b_, "get_height") and b_.get_width() > 0]
+                rank_ties.append((expr_r, bars_r, Fr, rep_r))
+            except Exception as e_:
+                out.broken_obligation("tie:Model/Rank.v", "could not prepare the rank tie: %r" % (e_,))
             if len(cols_r) != Fr or any(abs(v_ - 1.0) > 1e-9 for v_ in cols_r.values()):
                 out.violation("rank:shares", "verif %s: the stacked shares at the %d rank positions add up to %r, expected 1 at each of the %d positions "
                               "(inputs with an undefined score at one lead time: %r; inputs 0 and 1 tie at lead time %d)"
                               % (" ".join(rep_r["argv"][1:]), len(cols_r), [round(v_, 4) for v_ in cols_r.values()], Fr, {k_: 6 * v_ for k_, v_ in const_at.items()}, 6 * tie_at), rep_r)
+        if rank_ties:
+            try:
+                got_rt = common.coq_eval_float_lists("From VF Require Import Model.DataQ Model.Rank.", [t_[0] for t_ in rank_ties], "c16rank_%d" % seed, chunk=20, float_scope=False)
+                for (expr_r, bars_r, Fr, rep_r), g_ in zip(rank_ties, got_rt):
+                    nv_ = g_[-1]
+                    want_r = [c_ / nv_ if nv_ > 0 else float("nan") for c_ in g_[:-1]]
+                    ok_ = len(bars_r) == len(want_r) and all((np.isnan(a_) and np.isnan(b_)) or abs(a_ - b_) < 1e-9 for a_, b_ in zip(bars_r, want_r))
+                    if not ok_:
+                        out.broken_obligation("tie:Model/Rank.v", "rank view of %s: bar heights %r, the model's shares are %r" % (" ".join(rep_r["argv"][1:]), [round(float(x_), 4) for x_ in bars_r], [round(x_, 4) for x_ in want_r]))
+                        out.violation("rank:bars", "verif %s: the bars (input-major, then 'None') have heights %r; the shares of the slices in which each input stands at each rank position are %r"
+                                      % (" ".join(rep_r["argv"][1:]), [round(float(x_), 4) for x_ in bars_r], [round(x_, 4) for x_ in want_r]), rep_r)
+            except RuntimeError as ex:
+                out.broken_obligation("tie:Model/Rank.v", str(ex)[-1200:])
     finally:
         runner.close()
         runner.mpl.close("all")
